@@ -93,6 +93,16 @@ Theorem C03_extreme_decisions :
 Proof. split; [exact improvement_accepted | split; [exact hopeless_rejected | exact block_step_extreme]]. Qed.
 Print Assumptions C03_extreme_decisions.
 
+(** Round 3.  The rule written as a product  likelihood ratio x tempered prior ratio  is the same real number, hence the same
+    decision for every draw (exp a * exp b = exp (a + b)); the generated expressions above are tied to exp(-D) by equality
+    over R, whatever their syntactic form.  What differs is the FLOAT evaluation of the factors (each overflows / underflows
+    beyond the range of exp although exp(-D) is ordinary): outside this statement, covered by the directed decisions. *)
+Theorem C03_rule_factored : forall pa na pr nr tinv : R,
+  exp (pa - na) * exp ((pr - nr) * tinv) = exp (- ((na - pa) + tinv * (nr - pr))) /\
+  (forall u, u < exp (pa - na) * exp ((pr - nr) * tinv) <-> acceptb u (alpha pa na pr nr tinv) = true).
+Proof. exact rule_factored. Qed.
+Print Assumptions C03_rule_factored.
+
 (** What is read: the attachment node that sums all observation models and the variable's own prior term. *)
 Theorem C03_reads :
   gen_pop_attach_node = "nll_attach"%string /\ gen_pop_regul_node = "nll_regul_VAR"%string /\
